@@ -129,17 +129,22 @@ def _canon_read(r):
     return ["ok", hu.canon(r[1])] if r[0] == "ok" else ["exc", r[1]]
 
 
-def late_reads(case, names, fresh, limit_culprits=4):
+_CASE = object()
+
+
+def late_reads(case, names, fresh, limit_culprits=4, transforms=_CASE, k=0):
     """Build a second partition from the same arguments (population chosen from the case number), read
     EVERY public property of it (enumerated by introspection in c18_util.READS, + the method reads) in
     an order shuffled by a PRNG seeded with the case number, then read `names`; compare value-exactly
-    (NaN = NaN) with `fresh` (name -> impl.get result read on a fresh partition).
+    (NaN = NaN) with `fresh` (name -> impl.get result read on a fresh partition `k` built with `transforms`,
+    by default the case's own).
     Returns (population, [(name, fresh_canon, late_canon, single_earlier_reads_that_change_it)])."""
     import random
     from harness.props import c18_util as hu
     rng = random.Random(1000003 * int(case.get("k", 0)) + 29)
     population = rng.choice([None, 1000, 75])
-    p = impl.partition(case["response"], case["transforms"], population=population)
+    tr = case["transforms"] if transforms is _CASE else transforms
+    p = impl.partition(case["response"], tr, k=k, population=population)
     reads = list(hu.READS.get(type(p).__name__, []))
     rng.shuffle(reads)
     for name, args in reads:
@@ -155,7 +160,7 @@ def late_reads(case, names, fresh, limit_culprits=4):
         for pre, args in reads:
             if pre == n:
                 continue
-            q = impl.partition(case["response"], case["transforms"], population=population)
+            q = impl.partition(case["response"], tr, k=k, population=population)
             impl.get(q, pre, *args)
             if _canon_read(impl.get(q, n)) != a:
                 culprits.append(pre)
